@@ -1304,4 +1304,18 @@ pub mod verif {
     pub fn clear_node_issues(driver: &mut SwarmDriver, peer: &PeerId) {
         let _ = driver.bad_nodes.remove(peer);
     }
+
+    /// Make every recorded issue `secs` seconds older (as if that much time had passed), so that the
+    /// ten-second rate limit and the 300-second retention of `record_node_issue` can be exercised
+    /// without waiting.
+    pub fn age_node_issues(driver: &mut SwarmDriver, secs: u64) {
+        let by = std::time::Duration::from_secs(secs);
+        for (issues, _is_bad) in driver.bad_nodes.values_mut() {
+            for (_issue, timestamp) in issues.iter_mut() {
+                if let Some(earlier) = timestamp.checked_sub(by) {
+                    *timestamp = earlier;
+                }
+            }
+        }
+    }
 }
